@@ -10,7 +10,7 @@ trap 'git -C /repo worktree remove --force "$wt" >/dev/null 2>&1; rm -rf "$wt"' 
 if ! git -C "$wt" apply "$patch"; then echo "PATCH-DOES-NOT-APPLY $patch"; exit 3; fi
 rc=0
 for p in "$@"; do
-  /verif/bin/fdocheck -no-write -repo "$wt" -tier "${TIER:-quick}" "$p" | grep -v "^  \[entry" | cut -c1-400
+  ${FDOCHECK:-/verif/bin/fdocheck} -no-write -repo "$wt" -tier "${TIER:-quick}" "$p" | grep -v "^  \[entry" | cut -c1-400
   r=${PIPESTATUS[0]}
   echo "== $p exit=$r"
   [ "$r" -ne 0 ] && rc=$r
